@@ -248,7 +248,7 @@ def ref_specs(draw, tree_data, n_genes=None, max_genes=24, min_genes=8, family=N
         n_genes = draw(st.integers(min_genes, max_genes))
     genes = draw(shuffled(gene_names(n_genes)))
     rows = draw(shuffled(list(range(len(leaves)))))
-    fam = family or draw(st.sampled_from(['generic'] * 6 + ['identical_pair', 'affine_pair', 'constant', 'zero_gene']))
+    fam = family or draw(st.sampled_from(['generic'] * 6 + ['identical_pair', 'affine_pair', 'constant', 'zero_gene', 'empty_leaf']))
     return {
         'genes': list(genes),
         'leaves': leaves,
